@@ -9,7 +9,7 @@ CORE_NOTE = ("trusted: TLC, archive/tar as independent tape reader, a second SQL
 
 CHECKS = {
     "C01": dict(cat="model_checking", design="7/C01", technique="TLA+ spec (STFS.tla: C01_RebuildEq) model-checked with TLC; TLC-generated behaviours replayed on the real filesystem, running view vs rebuilt-from-tape vs reopened compared after every call",
-                text="TLC proves on the bounded design that the live index always equals a replay of the tape from scratch; every TLC-generated call history is executed on the real code under seeded concretisations (names, contents, pipeline configurations, record sizes) and after every call the running instance is compared field by field (names, kinds, sizes, modes, owners, mtimes, link targets, content hashes) with an index rebuilt from the tape alone and with a fresh process over the same index."),
+                text="TLC proves on the bounded design that the live index always equals a replay of the tape from scratch; every TLC-generated call history is executed on the real code under seeded concretisations (names, contents, pipeline configurations, record sizes) and after every call the running instance is compared field by field (names, kinds, sizes, modes, owners, mtimes, link targets, content hashes) with an index rebuilt from the tape alone and with a fresh process over the same index. Histories include batched Operations.Archive calls with 1-2 members; symbolic links are known finding K05 (a witness history is replayed on every run)."),
     "C02": dict(cat="model_checking", design="7/C02", technique="TLA+ reference filesystem (RefFS.tla) + STFS.tla refinement invariant C02_RefEq checked by TLC; generated behaviours replayed, outcome and whole tree compared with the reference after every call",
                 text="The reference filesystem is part of the specification; TLC checks that the modelled index always shows exactly the reference tree and that failed calls change nothing. Each generated behaviour carries the reference's outcome and tree after every call; the real filesystem must succeed/fail exactly alike, show exactly that tree (kinds, byte contents, permissions/owners/mtimes set by calls) and leave tape and index untouched on failure."),
     "C04": dict(cat="model_checking", design="7/C04", technique="TLA+ (Tape.tla Pos, STFS.tla C04_Positions/C04_Last) checked by TLC; replay compares every live row's (record, block) with an independent tar scan and fetches at the position",
@@ -33,7 +33,7 @@ CHECKS.update({
                 text="ReadOnly.tla freezes tape, index and reference after a writable phase; TLC checks that no read-only-phase call changes them, that every mutator answers EPERM and that observers answer as the writable specification. Generated behaviours issue every mutating method, observers and OpenFile with 13 flag combinations followed by write/writeat/writestring/truncate/sync/read against two real read-only constructions (one builds its missing index on first open); tape bytes and index rows must be identical before and after every call, mutators must return a permission error, readers must equal a writable twin over a copy of the data and the specification's content/listing."),
     "C16": dict(cat="model_checking", design="7/C16", technique="TLA+ STFS.tla histories (TLC-generated) executed, then the filesystem is constructed+initialised over tape variants {intact, torn header/data/trailer} x index variants {absent, current, stale}; tape bytes, view = rebuild, and a write + read-back + rebuild afterwards are checked",
                 note="torn tails = truncation; stale index = copy of the index after an earlier call; torn-tail and stale-index scenarios are known findings K01/K02 (printed as KNOWN-FINDING), intact tapes with absent/current index are checked at full strength",
-                text="For each generated history the drive file (intact or cut) is combined with no index, the current index or a stale copy; NewSTFS+Initialize must not change a byte of a tape that holds a root, a successful open must show exactly the from-scratch rebuild (names, attributes, content), and a directory and file written afterwards must read back and survive a rebuild together with every earlier entry."),
+                text="For each generated history the drive file (intact or cut) is combined with no index, the current index or a stale copy; NewSTFS+Initialize must not change a byte of a tape that holds a root, a successful open must show exactly the from-scratch rebuild (names, attributes, content), an entry that was on the tape is renamed (names in a rebuilt index are stored relative to the root), and a directory and file written afterwards must read back and survive a rebuild together with every earlier entry."),
 })
 
 CHECKS.update({
@@ -45,7 +45,7 @@ CHECKS.update({
 CHECKS.update({
     "C10": dict(cat="fault_enumeration", design="7/C10", technique="TLA+ spec Locks.tla (calls as lock programs with a failing twin for every step) model-checked with TLC: AtRestFree, NoDoubleRelease, EveryCallReturns with one fault anywhere; single-fault enumeration on the real code through BackendConfig / MetadataPersister / write-cache seams with watchdog and follow-up probes",
                 note="faults are injected at existing seams, one per run; a call counts as hung after 40 s; K03 (partially consumed reader pins the drive) is a known finding printed by a witness run",
-                text="Locks.tla models every call as the sequence of lock acquisitions/releases the code performs, with an error twin for each step that can fail; TLC checks that all locks are free at rest, no mutex is released by a non-holder and every call returns, and the check fails the run if the model stops detecting the repaired leak (deviation D1) or the known deadlock (K03). On the real code, for each call kind (26 fixed kinds incl. rejected calls, plus calls inside TLC-generated histories) a fault-free run counts the drive writes, drive reads, index-store calls, source reads and drive opens the call reaches; each point is then failed once on a fresh instance and the call plus a following Mkdir/Stat/List/ReadFile must return, without the process dying and with balanced drive acquire/release events."),
+                text="Locks.tla models every call as the sequence of lock acquisitions/releases the code performs, with an error twin for each step that can fail; TLC checks that all locks are free at rest, no mutex is released by a non-holder and every call returns, and the check fails the run if the model stops detecting the repaired leak (deviation D1) or the known deadlock (K03). On the real code, for each call kind (26 fixed kinds incl. rejected calls, plus calls inside TLC-generated histories) a fault-free run counts the drive writes, drive reads, index-store calls, source reads and drive opens the call reaches; each point is then failed once on a fresh instance and the call plus a following Mkdir/Stat/List/ReadFile must return, without the process dying and with balanced drive acquire/release events; a partially read and then closed handle must free the drive."),
     "C11": dict(cat="model_checking", design="7/C11", technique="TLA+ Locks.tla (2-3 clients) model-checked for deadlock/liveness; concurrent executions of the real code (built with -race, schedule perturbed at the seams) recorded as invocation/response histories and checked for linearizability by TLC with spec/Lin.tla, which reuses STFS.tla's actions; final state compared with a rebuild",
                 note="-race is the observation instrument for data races; composite operations only on private paths; files smaller than one Read buffer (larger concurrent readers: known finding K04)",
                 text="Locks.tla is checked for 2 (thorough: 3) concurrent clients with and without an injected fault: no deadlock, every call returns. 2..8 goroutines then run seeded programs over shared and private paths on one real instance compiled with the race detector, with yields/sleeps injected at the drive, index and cache seams; every call must complete, any reported data race is a violation, TLC must find an order of the recorded calls that respects real-time order and reproduces every outcome and the final tree under STFS.tla, and the final state must equal a rebuild from the tape."),
@@ -64,7 +64,7 @@ CHECKS.update({
 CHECKS.update({
     "C17": dict(cat="model_checking", design="7/C17", technique="TLA+ transcription Roots.tla of getSanitizedPath / GetRootPath / inventory.Stat / BasePathFs over structured names, evaluated by TLC for every root shape x tree x member x spelling; real archives written by archive/tar (ustar/PAX/GNU x 4 root shapes x name pools) opened through the documented composition",
                 note="archives contain an entry for their top-level directory (as the property states); trusted: archive/tar as the standard tar writer",
-                text="Roots.tla transcribes the seven-way case analysis of path sanitising and the root inference and TLC checks that, for each root shape tar produces, every member is found under the spellings '/d/f', 'd/f' and './d/f', distinct members resolve to distinct rows and the inferred root is the archive's top entry. Generated trees (depth <= 3, long/non-ASCII/wildcard/suffix-like names, sizes 0..33000) are written in three tar formats and four root styles, opened with Initialize + NewCacheFilesystem; every member must be listed exactly once under its directory and read back byte-identical, the three spellings must stat and read the same entry, and entries added through the filesystem must coexist and survive a rebuild."),
+                text="Roots.tla transcribes the seven-way case analysis of path sanitising and the root inference and TLC checks that, for each root shape tar produces, every member is found under the spellings '/d/f', 'd/f' and './d/f', distinct members resolve to distinct rows and the inferred root is the archive's top entry. Generated trees (depth <= 3, long/non-ASCII/wildcard/suffix-like names, sizes 0..33000) are written in three tar formats and four root styles, opened with Initialize + NewCacheFilesystem; every member must be listed exactly once under its directory and read back byte-identical, the three spellings must stat and read the same entry, entries added through the filesystem must coexist, and an original member is chmod-ed, one renamed with its subtree and one removed; everything must survive a rebuild."),
     "C18": dict(cat="model_checking", design="7/C18", technique="TLA+ oracle table Keys.tla (role x format x password class x parse password x pair -> expected outcome) enumerated by TLC; every tuple executed through utility.Keygen, keys.Parse*, Encrypt/Decrypt(String) and Sign/Verify(String) on two freshly generated pairs",
                 note="the model is an oracle table with three consistency properties; assurance comes from execution; key generation randomness is outside the model",
                 text="Keys.tla states when parsing succeeds (only with the generation password) and when use succeeds (only with the other half of the same pair) and TLC prints the 128-tuple table. For each role, format and password class (empty, ASCII, multi-byte, long) two pairs are generated; the private half is parsed with the same, a wrong, the empty and a longer password and used against the public half of its own and of the other pair, for string and stream encryption/decryption and signing/verification; an altered message must not verify."),
